@@ -448,13 +448,13 @@ class TopologicalSorter:
         """Remove a node from the sort input"""
         self.names.remove(name)
         del self.name2val[name]
-        after = self.name2after.pop(name, [])
-        if after:
+        after = self.name2after.pop(name, None)
+        if after is not None:
             self.req_after.remove(name)
             for u in after:
                 self.order.remove((u, name))
-        before = self.name2before.pop(name, [])
-        if before:
+        before = self.name2before.pop(name, None)
+        if before is not None:
             self.req_before.remove(name)
             for u in before:
                 self.order.remove((name, u))
